@@ -251,7 +251,7 @@ func (p *UDPPeer) SetOutboundIPv4(interfaceName string) error {
 
 	outboundIP, err := ipv4.SetMulticastInterface(p.socket, iff)
 	if err != nil {
-		return nil
+		return err
 	}
 
 	p.outbound = iff
